@@ -280,7 +280,7 @@ class XsdAttribute(XsdComponent, ValidationMixin[Optional[str], DecodedValueType
             return value
         elif isinstance(value, str):
             if value[:1] == '{' and self.type.is_qname():
-                return obj
+                return obj.strip() if isinstance(obj, str) else obj
             else:
                 return value
         elif isinstance(value, Decimal):
